@@ -792,7 +792,8 @@ class Gen(object):
                 hs = [h for c in pick for h in c['members']]
             rng.shuffle(hs)
         phrase = rng.choice([a['src_phrase'], a['tgt_phrase']])
-        return {'op': 'sort', 'hs': hs, 'rel': self.relid(a), 'phrase': phrase, 'partial': partial}
+        return {'op': 'sort', 'hs': hs, 'rel': self.relid(a), 'phrase': phrase, 'partial': partial,
+                'again': None if partial else rng.choice([None, None, 'drop', 'readd', 'rotate'])}
 
     def op_check(self):
         rng = self.rng
@@ -2113,9 +2114,35 @@ class Exec(object):
         return None
 
     def do_sort(self, op):
+        '''
+        One sort, and for op['again'] a second one of the *same* QuerySet object after it has lost the chain of its
+        first member ('drop') or has got it back at its end ('readd'): a set is an object with a history too.
+        '''
+        self._last_sort = None
+        res = self._do_sort(op)
+        st = self._last_sort
+        if op.get('again') and st and len(st[1]) > 1:
+            qs, hs, i = st
+            first = [c for c in components(self.ref, i, hs) if hs[0] in c['members']]
+            drop = [h for h in hs if first and h in first[0]['members']]
+            if op['again'] == 'rotate':
+                drop = [hs[0]]      # the first member goes to the end: a ring has to start somewhere else now
+            if drop and len(drop) < len(hs):
+                for h in drop:
+                    qs.remove(self.w.h2i[h])
+                hs2 = [h for h in hs if h not in drop]
+                if op['again'] in ('readd', 'rotate'):
+                    for h in drop:
+                        qs.add(self.w.h2i[h])
+                    hs2 += drop
+                self._do_sort(op, qs, hs2)
+                self.bump(self.probes, 'sort_same_object_again')
+        return res
+
+    def _do_sort(self, op, qs=None, hs_given=None):
         ref, w, x = self.ref, self.w, self.x
         hs = []
-        for h in op['hs']:
+        for h in (op['hs'] if hs_given is None else hs_given):
             if h in ref.rows and ref.rows[h].alive and h not in hs:
                 hs.append(h)
         rel = op['rel'] if not isinstance(op['rel'], int) else 'R%d' % op['rel']
@@ -2140,7 +2167,9 @@ class Exec(object):
             r = ref.partners(i, h, p == a['src_phrase'])
             return r[0] if r else None
 
-        qs = x.QuerySet([w.h2i[h] for h in hs])
+        if qs is None:
+            qs = x.QuerySet([w.h2i[h] for h in hs])
+        self._last_sort = (qs, hs, i)
         budget = 4000 + 1500 * (len(hs) + 1) * (len(ref.live(a['src'])) + 1)
         metered = self.cfg.get('meter') and self.e.meter.available
         if metered:
